@@ -516,6 +516,27 @@ pub fn oracle_c03_inner(ctx: &mut Ctx, idx: usize, c: &SCase, b: &Built, r: &Sea
                 } else if sum < -(1e-9 * mag + 1e-9) && !(total > 0.0 && total <= 1e-9) {
                     ctx.fail(idx, "cost/floor-missing", format!("edge {}: reported {} for non-positive sum {}", e, total, sum));
                 }
+            } else if matches!(c.access, Acc::None) && !init.is_empty() {
+                // product aggregation (no access step on the edge): the vehicle share is the product over
+                // EVERY feature of weight x rate(change of state), the network share the product of the
+                // weighted per-edge rates; their sum, floored, is the edge's cost
+                let mut pv = 1.0;
+                let mut pn = 1.0;
+                for i in 0..init.len() {
+                    let delta = st[i] - prev_state[i];
+                    pv *= map_rate(&b.cost_vrates[i], delta) * b.cost_weights[i];
+                    pn *= net_rate(&b.cost_nrates[i], e) * b.cost_weights[i];
+                }
+                let sum: f64 = pv + pn;
+                let mag = pv.abs() + pn.abs();
+                let total = et.total_cost().as_f64();
+                if sum.is_finite() && sum > 1e-9 * mag + 1e-9 {
+                    if !close(total, sum, 1e-9, 1e-9 * mag + 1e-12) {
+                        ctx.fail(idx, "cost/not-weighted-state-change", format!("edge {} (product aggregation): reported {} expected {} = {} + {}", e, total, sum, pv, pn));
+                    }
+                } else if sum < -(1e-9 * mag + 1e-9) && !(total > 0.0 && total <= 1e-9) {
+                    ctx.fail(idx, "cost/floor-missing", format!("edge {} (product aggregation): reported {} for non-positive total {}", e, total, sum));
+                }
             }
             prev_state = st;
             prev_edge = Some(e);
